@@ -263,20 +263,23 @@ def generate(outpath, repo="/repo"):
             continue
         li = nn_index[id(paths[pi])]
         okp = [q for q in pp if q.outcome == "ok"]
-        # the Newton iterates: arguments of the sines kept in _sinEPW
         epw_names = {}
-        for q in okp:
-            n = lift(q.value[1]._sinEPW)
-            if g.nodes[n][0] != "sin":
-                _unsupported("_sinEPW is not a sine")
-            arg = g.nodes[n][1]
-            if arg not in epw_names:
-                nm = "gen_nn%d_epw_x%d" % (li, len(epw_names))
-                epw_names[arg] = nm
-                if arg not in known:
-                    add(nm, PROP_IN, arg)
+        def name_iterates():
+                # the Newton iterates: arguments of the sines kept in _sinEPW
+            for q in okp:
+                n = lift(q.value[1]._sinEPW)
+                if g.nodes[n][0] != "sin":
+                    _unsupported("_sinEPW is not a sine")
+                arg = g.nodes[n][1]
+                if arg not in epw_names:
+                    nm = "gen_nn%d_epw_x%d" % (li, len(epw_names))
+                    epw_names[arg] = nm
+                    if arg not in known:
+                        add(nm, PROP_IN, arg)
         # named intermediate quantities
         for a in KEP_ATTRS:
+            if a == "_sinEPW":
+                name_iterates()
             seen = []
             for q in okp:
                 val = getattr(q.value[1], a, None)
